@@ -10,6 +10,7 @@ CONSTANTS
   Protos = {TRUE, FALSE}
   Faults <- NoFaults
   Spurious = FALSE
+  AllowDrop = FALSE
   Durs <- Durs13
   MaxT = 6
   RespFaults = FALSE
